@@ -225,6 +225,24 @@ func confRunSeq(b *confBackend, seqNo int, ops []confOp) ([]string, string, erro
 			return nil, "", fmt.Errorf("timeout waiting for watch sentinel")
 		}
 	}
+	// a second watch that has to catch up from the base revision: both backends must deliver the whole
+	// backlog (all revisions) in their FIRST response (the fake's batching rule for catch-up)
+	// (the embedded server syncs lagging watchers every 100 ms, so this is done for the two-operation
+	// sequences only)
+	if len(ops) == 2 {
+		cctx, ccancel := context.WithCancel(context.Background())
+		defer ccancel()
+		cch := b.cli.Watch(cctx, b.prefix, clientv3.WithPrefix(), clientv3.WithRev(b.baseRev+1))
+		select {
+		case resp, ok := <-cch:
+			if !ok {
+				return nil, "", fmt.Errorf("catch-up watch channel closed")
+			}
+			evs = append(evs, fmt.Sprintf("catch-up first response: %d events (live watch saw %d)", len(resp.Events), len(evs)+1))
+		case <-ctx.Done():
+			return nil, "", fmt.Errorf("timeout waiting for catch-up watch")
+		}
+	}
 	// events of one revision (prefix delete, lease revoke) have no defined order across backends
 	_, _ = b.cli.Revoke(ctx, b.lease)
 	return out, strings.Join(confCanonEvents(evs), ";"), nil
